@@ -67,7 +67,8 @@ class EvalInterp(ResultInterp):
                 d = {}
                 for m in r.eval_metrics:
                     d[m] = SCORES[i] if (r.dec_metric is None and m is r.eval_metrics[0]) or m is r.dec_metric else Sym(f"{m.attrs['_name_']}[{label.name}]")
-                out.append(d)
+                # in the shape the worker itself hands back (read off its abstract run)
+                out.append(d if worker_result_shape(self.prog) == "dict" else tuple(d[m] for m in r.eval_metrics))
             return out
         return super().external_call(name, args, kwargs, node)
 
@@ -113,7 +114,7 @@ def check_evaluate(ctx: Ctx):
     # reporting switches of the function (boolean parameters that default to off) are also run switched on:
     # what is counted must not depend on them
     flags = [p.name for p in f.call_params if p.name != pair_p and p.name not in need and isinstance(p.default, ast.Constant) and p.default.value is False]
-    for dm, thr, thr_repr, flag in [(dm, thr, tr, fl) for fl in [None] + flags for dm in (None, inc, dec) for thr in ((None,) if dm is None else (Fraction(0), Fraction(1, 2))) for tr in ((thr,) if thr is None else (thr, float(thr)))]:
+    for dm, thr, thr_repr, flag in [(dm, thr, tr, fl) for fl in [None] + flags for dm in (None, inc, dec) for thr in ((None,) if dm is None else (Fraction(0), Fraction(1, 2), Fraction(1))) for tr in ((thr,) if thr is None else (thr, float(thr)))]:
         if True:
             if True:
                 pair = Obj(pcls, {"matched_instances": list(labels), "_reference_arr": Sym("REF_ARR"), "_prediction_arr": Sym("PRED_ARR"), "n_prediction_instance": Sym("N_PRED"), "n_reference_instance": Sym("N_REF"), "_pred_labels": tuple(labels), "_ref_labels": tuple(labels), "missed_reference_labels": [], "missed_prediction_labels": []})
@@ -189,10 +190,94 @@ class _MaskTest:
         self.nonempty = nonempty
 
 
+def instance_worker(prog) -> Func:
+    """The function evaluate_matched_instance runs once per matched instance: what it hands to the pool's
+    starmap / map (or to a verified map helper) - `_evaluate_instance` unless the code says otherwise."""
+    w = prog.__dict__.get("_instance_worker")
+    if w is not None:
+        return w
+    f = prog.func("instance_evaluator:evaluate_matched_instance")
+    w = None
+    for c in walk_no_nested(f.node):
+        if isinstance(c, ast.Call) and c.args and isinstance(c.args[0], (ast.Name, ast.Attribute)):
+            is_map = isinstance(c.func, ast.Attribute) and c.func.attr in ("starmap", "map", "imap", "starmap_async", "map_async")
+            tg = None
+            if not is_map and isinstance(c.func, (ast.Name, ast.Attribute)):
+                r = prog.resolve_dotted(f.module, c.func)
+                from .c15 import parallel_map_helpers
+
+                is_map = isinstance(r, Func) and r.qual in parallel_map_helpers(prog)
+            if is_map:
+                tg = prog.resolve_dotted(f.module, c.args[0])
+                if isinstance(tg, Func):
+                    w = tg
+                    break
+    if w is None:
+        w = prog.func("instance_evaluator:_evaluate_instance")
+    prog.__dict__["_instance_worker"] = w
+    return w
+
+
+def worker_result_shape(prog) -> str:
+    """'dict' (metric -> value) or 'seq' (values in the order of the metrics handed in): what the per-instance
+    worker returns on its metric-evaluating path, read off its abstract run (R02.5 checks that run)."""
+    sh = prog.__dict__.get("_worker_shape")
+    if sh is None:
+        sh = "dict"
+        try:
+            for out, it in _run_worker(prog, instance_worker(prog)):
+                if out.kind == "return" and it.root.kernel_calls and isinstance(out.value, (tuple, list)):
+                    sh = "seq"
+        except (Undecided, AnchorMissing):
+            pass
+        prog.__dict__["_worker_shape"] = sh
+    return sh
+
+
 def check_single_instance(ctx: Ctx):
-    """_evaluate_instance: same label selected on both sides, cropped with one crop, metrics on (ref, pred)."""
+    """The per-instance worker: same label selected on both sides, cropped with one crop, metrics on (ref, pred)."""
     prog = ctx.prog
-    f = prog.func("instance_evaluator:_evaluate_instance")
+    f = instance_worker(prog)
+    runs = _run_worker(prog, f)
+    metrics = metric_objs(prog)
+    from .arrdom import AMask
+
+    saw_full = False
+    for out, it in runs:
+        empties = [d for n, v, d in out.decisions if isinstance(v, Unknown) and v.tag.startswith("selected-empty")]
+        other = [v for n, v, d in out.decisions if not (isinstance(v, Unknown) and v.tag.startswith("selected-empty"))]
+        construct = f"{f.qual}"
+        if other:
+            ctx.undecided("R02.5", f, out.node, construct, "per-instance evaluation splits on an unmodelled condition")
+            continue
+        if any(empties):
+            ctx.decide("R02.5", f, out.node, construct + ":empty", "an instance absent on one side yields no metric values", out.kind == "return" and out.value in ({}, (), []), {"got": repr(out.value)}, nontrivial=False)
+            continue
+        saw_full = True
+        kc = it.root.kernel_calls
+        ok = out.kind == "return" and isinstance(out.value, (dict, tuple, list)) and len(out.value) == 2 and len(kc) == 2
+        if ok and isinstance(out.value, dict):
+            ok = [getattr(k, "attrs", {}).get("_name_") for k in out.value.keys()] == [m.attrs["_name_"] for m in metrics[:2]]  # each value under its own metric
+        details = {}
+        if ok:
+            for (kname, kargs, kkw, knode), m in zip(kc, metrics[:2]):
+                a_ref = kargs[0] if kargs else kkw.get("reference_arr")
+                a_pred = kargs[1] if len(kargs) > 1 else kkw.get("prediction_arr")
+                good = isinstance(a_ref, AMask) and isinstance(a_pred, AMask) and a_ref.of.side == "REF" and a_pred.of.side == "PRED" and a_ref.kind == "eq" and a_pred.kind == "eq" and a_ref.detail == Sym("LBL") and a_pred.detail == Sym("LBL") and getattr(a_ref, "cropped", False) == getattr(a_pred, "cropped", False)
+                details[kname] = (repr(a_ref), repr(a_pred))
+                ok = ok and good and kname == f"kernel:{m.attrs['value'].attrs['name']}"
+            ca = getattr(it.root, "crop_args", [])
+            if ca:
+                sides = sorted(x.of.side for x in ca if isinstance(x, AMask))
+                ok = ok and sides == ["PRED", "REF"]
+                details["crop_from"] = sides
+        ctx.decide("R02.5", f, out.node, construct + ":selection", "each metric is evaluated on (reference == label, prediction == label), both cropped by one crop computed from both masks, and handed back under / in the order of its metric", ok, details)
+    if not saw_full:
+        ctx.undecided("R02.5", f, f.node, f"{f.qual}", "no path evaluates the metrics")
+
+
+def _run_worker(prog, f):
+    """abstract runs of the per-instance worker `f`: [(outcome, interpreter)]"""
     from .arrdom import AArr, AMask, ArrInterp
 
     metrics = metric_objs(prog)
@@ -295,36 +380,7 @@ def check_single_instance(ctx: Ctx):
         return it
 
     outs = enumerate_paths(make)
-    saw_full = False
-    for out, it in zip(outs, holder):
-        empties = [d for n, v, d in out.decisions if isinstance(v, Unknown) and v.tag.startswith("selected-empty")]
-        other = [v for n, v, d in out.decisions if not (isinstance(v, Unknown) and v.tag.startswith("selected-empty"))]
-        construct = f"{f.qual}"
-        if other:
-            ctx.undecided("R02.5", f, out.node, construct, "per-instance evaluation splits on an unmodelled condition")
-            continue
-        if any(empties):
-            ctx.decide("R02.5", f, out.node, construct + ":empty", "an instance absent on one side yields no metric values", out.kind == "return" and out.value == {}, {"got": repr(out.value)}, nontrivial=False)
-            continue
-        saw_full = True
-        kc = it.root.kernel_calls
-        ok = out.kind == "return" and isinstance(out.value, dict) and len(out.value) == 2 and len(kc) == 2
-        details = {}
-        if ok:
-            for (kname, kargs, kkw, knode), m in zip(kc, metrics[:2]):
-                a_ref = kargs[0] if kargs else kkw.get("reference_arr")
-                a_pred = kargs[1] if len(kargs) > 1 else kkw.get("prediction_arr")
-                good = isinstance(a_ref, AMask) and isinstance(a_pred, AMask) and a_ref.of.side == "REF" and a_pred.of.side == "PRED" and a_ref.kind == "eq" and a_pred.kind == "eq" and a_ref.detail == Sym("LBL") and a_pred.detail == Sym("LBL") and getattr(a_ref, "cropped", False) == getattr(a_pred, "cropped", False)
-                details[kname] = (repr(a_ref), repr(a_pred))
-                ok = ok and good and kname == f"kernel:{m.attrs['value'].attrs['name']}"
-            ca = getattr(it.root, "crop_args", [])
-            if ca:
-                sides = sorted(x.of.side for x in ca if isinstance(x, AMask))
-                ok = ok and sides == ["PRED", "REF"]
-                details["crop_from"] = sides
-        ctx.decide("R02.5", f, out.node, construct + ":selection", "each metric is evaluated on (reference == label, prediction == label), both cropped by one crop computed from both masks", ok, details)
-    if not saw_full:
-        ctx.undecided("R02.5", f, f.node, f"{f.qual}", "no path evaluates the metrics")
+    return list(zip(outs, holder))
 
 
 # ----------------------------------------------------------------------------------------
